@@ -553,7 +553,10 @@ pub fn generate(seed: u64, k_seeds: usize) -> Sc {
                     row[C_CFX] = format!("1.{:04}", r.range(1000, 4500));
                 }
             }
-            if r.chance(1, 4) {
+            if r.chance(1, 60) {
+                // a very long memo (tables wrap it)
+                row[C_MEMO] = format!("{} end", "transfer in kind from the old account, see statement page 3; ".repeat(r.range(4, 12) as usize));
+            } else if r.chance(1, 4) {
                 row[C_MEMO] = (*r.pick(&["note", "drip", "vest", "rebalance to target", "tax loss harvest - see advisor notes", "lot 3, per advisor", "said \"hold\"", "line one\nline two", "r\u{e9}\u{e9}quilibrage \u{2014} \u{65e5}\u{672c}"])).to_string();
             }
             all_rows.push((day, row));
